@@ -161,6 +161,8 @@ class Orchestrator:
                     f"Skipping strategy: {strategy.name} on CV-fold: "
                     f"{cv_fold} of dataset: {dataset.name}"
                 )
+                # existing results stay listed in the results registry
+                self.results._append_key(strategy.name, dataset.name)
                 continue
 
             # split data into training and test sets
